@@ -226,7 +226,7 @@ class TCPPacketGenerator(Device, OutMixIn):
         if self.flow.start_time:
             yield env.timeout(self.flow.start_time)
 
-        while env.now < self.flow.finish_time:
+        while self.flow.finish_time is None or env.now < self.flow.finish_time:
             # all bytes in flow has been received
             if self.flow.size is not None and self.next_seq >= self.flow.size:
                 return
